@@ -28,7 +28,15 @@ NOTE = re.compile(rb'(exit \d+|write \d+ to simout\(\d+\)|read \d+ to mem\[[0-9a
 def gen_dirty(r):
     """Assembly program that loads never-written words and reports them."""
     n = r.randint(1, 6)
-    items = [('ref', 'BR', 'go'), ('data', 150000), ('label', 'go')]
+    items = [('ref', 'BR', 'go'), ('data', 150000), (r.choice(['label', 'proc', 'func']), 'go')]
+    # the words directly behind the image are where the file's symbol table would land if the loader copied too much: read some of
+    # them (the image length is estimated from the item count; prefixes make it a little longer)
+    tail = []
+    if r.random() < 0.6:
+        # FUNC/PROC entries behind the exit: names of varied length (string table length mod 4) and a last symbol at >= 256 or >= 65536
+        for k in range(r.randint(1, 4)):
+            tail += [('pad', r.choice([0, 3, 40, 300, 300, 70000 if r.random() < 0.1 else 500])), (r.choice(['proc', 'func']), 's' + 'y' * r.randint(0, 9) + str(k)), ('opr', 'ADD')]
+    est_words = (12 + n * 14 + sum((it[1] if it[0] == 'pad' else 1) for it in tail)) // 4 + 2
     for _ in range(n):
         how = r.randint(0, 3)
         if how == 3:
@@ -38,7 +46,7 @@ def gen_dirty(r):
                       ('imm', 'LDAM', 1), ('imm', 'LDAI', 1)]
             items += [('imm', 'LDBM', 1), ('imm', 'STAI', 2), ('imm', 'LDAC', 0), ('imm', 'STAI', 3), ('imm', 'LDAC', 1), ('opr', 'SVC')]
             continue
-        addr = r.choice([r.randint(300, 199999), r.randint(150001, 150010), 199999, r.randint(1000, 2000)])
+        addr = r.choice([r.randint(300, 199999), r.randint(150001, 150010), 199999, r.randint(1000, 2000), est_words + r.randint(-2, 12), est_words + r.randint(0, 40)])
         if how == 0:
             items += [('imm', 'LDAM', addr)]
         elif how == 1:
@@ -50,7 +58,7 @@ def gen_dirty(r):
         items += [('imm', 'LDBM', 1), ('imm', 'STAI', 2), ('imm', 'LDAC', 0), ('imm', 'STAI', 3), ('imm', 'LDAC', 1), ('opr', 'SVC')]
     # exit with the last loaded word (still in sp[2])
     items += [('imm', 'LDAC', 0), ('opr', 'SVC')]
-    return items
+    return items + tail
 
 
 def refrun(img, inp, scratch, max_steps=None):
